@@ -460,8 +460,11 @@ async fn run(case: Value, mode: Mode) -> Outcome {
                         match nlj_fallback {
                             Some(t @ "nlj-fallback-left-emission") if !has_missing => sim::set_tag(t),
                             Some(t @ "nlj-fallback-right-emission") if !has_extra => sim::set_tag(t),
-                            // rows lost, nothing invented, and the join re-read a file scan as its left side
-                            _ if bounded_pool && has_missing && !has_extra && plans.iter().any(sqlsim::nlj_left_reexecution_over_file_scan) => {
+                            // the join took its fallback and re-read a file scan as its left side: the second
+                            // execution sees whatever the scan's shared work queue still holds (rows of files
+                            // already taken are lost; with several partitions a remaining file can be handed out
+                            // twice)
+                            _ if bounded_pool && (has_missing || has_extra) && plans.iter().any(sqlsim::nlj_left_reexecution_over_file_scan) => {
                                 sim::set_tag("nlj-fallback-left-reexecution")
                             }
                             _ if case["knobs"]["datafusion.optimizer.preserve_file_partitions"].as_u64().unwrap_or(0) > 0 && plans.iter().any(sqlsim::join_over_value_grouped_file_scan) => {
